@@ -754,7 +754,7 @@ class Receive(RecvUnit):
             st.put(MS, "$rrec", self.S, z3.Store(st.get(MS, "$rrec", self.S), payload.self, 0))
             self.woken = H(st, st.snapshot())
 
-    def after_suspending_call(self, ip, contract, a, case, exc):
+    def after_suspending_call(self, ip, contract, a, case, exc, ret=None):
         if contract.qualname == "Event.wait":
             self.wait_case = case.name
             self.wait_exc = exc
